@@ -39,7 +39,7 @@ enum Kind {
     H_QUERY,        // a period for the report (totals of all four periods are always compared)
     H_FLIP,         // a slot, b region (0 user, 1 guard, 2 padding), c index inside region, d value
     H_BADFREE,      // a kind (0 NULL, 1 stale, 2 interior, 3 stack, 4 untracked heap), b family, c slot/offset, s file (long location strings for C14)
-    H_FAULT,        // a kind (0 allocator returns NULL, 1 platform malloc NULL, 2 platform realloc NULL), b countdown (0 = next call)
+    H_FAULT,        // a kind (0 allocator returns NULL, 1 platform malloc NULL, 2 platform realloc NULL, 3 the allocator's separate bookkeeping-node allocation returns NULL), b countdown (0 = next call) / family
     H_TYPECHECK,    // a on/off
     H_WRAP,         // a family, b wrapper kind (0 default, 1 wrapper with same name, 2 wrapper with different name, 3 MemoryLeakAllocator-style forwarding wrapper, 4 Failable)
     H_CALLOC,       // a slot, b num, c size
@@ -73,6 +73,7 @@ struct SimHeap {
     int residue;                 // -1: natural bump; 0..72: every block lands in that bucket; 100+k: one of k buckets chosen per block
     Rng rng;
     long mallocCalls, reallocCalls, freeCalls, failMallocIn, failReallocIn;
+    bool armedReallocOnly;      // the one-shot request-size check of a realloc op waits for the platform realloc (a bookkeeping node may be allocated first)
     bool reallocZeroFrees;      // realloc(p, 0) releases p and answers NULL (glibc) instead of handing out a zero-size block
     size_t userRequest;          // size of the user request in flight (0 = none): a platform request below it is refused
     bool undersized; size_t undersizedGot, undersizedWanted; bool armed; bool limitHit;
@@ -96,7 +97,7 @@ struct SimHeap {
         ASAN_POISON_MEMORY_REGION(arena, prevTop > top ? prevTop : top);
         if (top > prevTop) prevTop = top;
         top = 0; blocks.clear(); residue = residueMode; rng.reseed(seed);
-        mallocCalls = reallocCalls = freeCalls = 0; failMallocIn = failReallocIn = -1; userRequest = 0; undersized = false; armed = false; limitHit = false; dirty = dirtyMem; foreignFrees = 0; reallocZeroFrees = false;
+        mallocCalls = reallocCalls = freeCalls = 0; failMallocIn = failReallocIn = -1; userRequest = 0; undersized = false; armed = false; limitHit = false; dirty = dirtyMem; foreignFrees = 0; reallocZeroFrees = false; armedReallocOnly = false;
     }
     bool owns(const void* p) const { return (const char*)p >= arena && (const char*)p < arena + cap; }
     Block* find(const void* p) { for (size_t i = blocks.size(); i-- > 0;) if (blocks[i].live && (const char*)p >= blocks[i].base && (const char*)p < blocks[i].base + (blocks[i].size ? blocks[i].size : 1)) return &blocks[i]; return 0; }
@@ -107,7 +108,7 @@ struct SimHeap {
             if (failMallocIn == 0) { failMallocIn = -1; armed = false; fired("platform_malloc_null"); return 0; }
             if (failMallocIn > 0) failMallocIn--;
         }
-        if (armed) { armed = false; if (n < userRequest) { undersized = true; undersizedGot = n; undersizedWanted = userRequest; return 0; } }
+        if (armed && !armedReallocOnly) { armed = false; if (n < userRequest) { undersized = true; undersizedGot = n; undersizedWanted = userRequest; return 0; } }
         if (n > ((size_t)64 << 20) || top + n + 4096 > cap) { fired("platform_heap_limit"); limitHit = true; return 0; }
         uintptr_t a = ((uintptr_t)(arena + top) + 15) & ~(uintptr_t)15;
         a += 16;                                        // red zone between blocks
@@ -214,8 +215,8 @@ static void* memcpySeam(void* d, const void* s, size_t n) {
 // simulated allocator: records, can fail, can carry any name; used as "wrapper" with equal or different type name
 class SimAllocator : public TestMemoryAllocator {
 public:
-    long failIn; long allocs, frees; TestMemoryAllocator* forwardTo;
-    SimAllocator(const char* n, const char* an, const char* fn) : TestMemoryAllocator(n, an, fn), failIn(-1), allocs(0), frees(0), forwardTo(0) {}
+    long failIn, failNodeIn; long allocs, frees; TestMemoryAllocator* forwardTo;
+    SimAllocator(const char* n, const char* an, const char* fn) : TestMemoryAllocator(n, an, fn), failIn(-1), failNodeIn(-1), allocs(0), frees(0), forwardTo(0) {}
     char* alloc_memory(size_t size, const char* file, size_t line) CPPUTEST_OVERRIDE {
         allocs++;
         if (failIn == 0) { failIn = -1; fired("alloc_null"); return 0; }
@@ -229,8 +230,11 @@ public:
         heapFree(memory);
     }
     TestMemoryAllocator* actualAllocator() CPPUTEST_OVERRIDE { return forwardTo ? forwardTo->actualAllocator() : this; }
-    // failures of the separate bookkeeping-node allocation are outside the fault model (DESIGN 9): nodes never fail
-    char* allocMemoryLeakNode(size_t size) CPPUTEST_OVERRIDE { return (char*)(HEAP.active ? HEAP.alloc(size, false) : realMalloc(size)); }
+    // the separately allocated bookkeeping node can fail too (fault kind 3): the request must then fail cleanly
+    char* allocMemoryLeakNode(size_t size) CPPUTEST_OVERRIDE {
+        if (failNodeIn == 0) { failNodeIn = -1; fired("node_alloc_null"); return 0; }
+        return (char*)(HEAP.active ? HEAP.alloc(size, false) : realMalloc(size));
+    }
     void freeMemoryLeakNode(char* memory) CPPUTEST_OVERRIDE { heapFree(memory); }
 };
 
@@ -314,7 +318,7 @@ struct Engine : public vf::Engine {
                 else if (x < 85) o.kind = H_STAGE_FREE;
                 else if (x < 88) { o.kind = H_CLEAR; o.a = (int64_t)w.below(4); }
                 else if (x < 97) { o.kind = H_QUERY; o.a = (int64_t)w.below(4); o.b = (int64_t)w.chance(1, 3); }
-                else if (!faultFree) { if (w.chance(1, 2)) { o.kind = H_BADFREE; o.a = w.range(1, 4); o.b = (int64_t)w.below(3); o.c = (int64_t)w.below((uint64_t)nSlots); } else { o.kind = H_FAULT; o.a = w.chance(1, 2) ? 0 : 2; o.b = (int64_t)w.below(3); } }      // allocator returns NULL, or the platform realloc fails: the old block keeps its period, stage and number
+                else if (!faultFree) { if (w.chance(1, 2)) { o.kind = H_BADFREE; o.a = w.range(1, 4); o.b = (int64_t)w.below(3); o.c = (int64_t)w.below((uint64_t)nSlots); } else { o.kind = H_FAULT; unsigned z = (unsigned)w.below(5); o.a = z < 2 ? 0 : (z < 4 ? 2 : 3); o.b = (int64_t)w.below(3); } }      // allocator returns NULL, or the platform realloc fails: the old block keeps its period, stage and number
                 else o.kind = H_QUERY;
             } else if (snd) {
                 if (x < 35) { o.kind = H_ALLOC; o.a = (int64_t)w.below((uint64_t)nSlots); o.b = (int64_t)w.below(3); o.c = (int64_t)boundarySize(w); o.phase = 2; o.s = siteFile((int)w.below(N_SITES)); o.s2 = w.chance(1, 3) ? "nothrow" : ""; }
@@ -325,7 +329,7 @@ struct Engine : public vf::Engine {
                 else if (x < 68) { o.kind = H_REALLOC; o.a = (int64_t)w.below((uint64_t)nSlots); o.c = (int64_t)(w.chance(4, 5) ? (size_t)w.small(0, 3000) : boundarySize(w)); }
                 else if (x < 88) { o.kind = H_FREE; o.a = (int64_t)w.below((uint64_t)nSlots); o.c = w.chance(1, 3) ? w.range(1, 4) : 0; }
                 else if (x < 92) { o.kind = H_QUERY; o.a = (int64_t)w.below(4); }
-                else if (!faultFree) { o.kind = H_FAULT; o.a = (int64_t)w.below(3); o.b = (int64_t)w.below(3); }
+                else if (!faultFree) { o.kind = H_FAULT; o.a = (int64_t)w.below(4); o.b = o.a == 3 && w.chance(2, 3) ? 2 : (int64_t)w.below(3); }
                 else o.kind = H_QUERY;
             } else if (mis) {
                 if (x < 30) { o.kind = H_ALLOC; o.a = (int64_t)w.below((uint64_t)nSlots); o.b = (int64_t)w.below(3); o.c = w.chance(3, 4) ? w.range(0, 64) : w.range(0, 600); o.phase = (int)w.below(3); o.s = siteFile((int)w.below(N_SITES)); }
@@ -552,6 +556,9 @@ struct Engine : public vf::Engine {
                 if (route == 2 && fam == 2) { if (cLevelFails(W)) { expectNull = true; cOom = true; } }   // the countdown runs before the allocator is consulted
                 if (alloc == &failable && !cOom) expectNull = modelFailable(W, file, line) || expectNull;
                 for (size_t k = 0; k < W.wrappers.size(); k++) if (W.wrappers[k] == alloc->actualAllocator() || W.wrappers[k] == alloc) { if (W.wrappers[k]->failIn == 0) expectNull = true; }
+                bool sepNode = GUARD == 0 || route == 1 || (route == 2 && fam == 2);      // the node is a separate allocation: no-guard build, asked for, or the malloc family
+                SimAllocator* nodeFails = 0; long userBalance = 0;
+                for (size_t k = 0; k < W.wrappers.size(); k++) if (W.wrappers[k] == alloc && W.wrappers[k]->failNodeIn == 0 && sepNode && !expectNull) { nodeFails = W.wrappers[k]; userBalance = nodeFails->allocs - nodeFails->frees; }
                 if (platformFaultArmed) { lenient = true; }
                 bool tooBig = overflowingCalloc || size > ((size_t)48 << 20) || size > SIZE_MAX - overhead;
                 HEAP.userRequest = overflowingCalloc ? 0 : size; HEAP.armed = !overflowingCalloc; HEAP.limitHit = false;
@@ -575,6 +582,10 @@ struct Engine : public vf::Engine {
                 if (testFailure && !lenient && !tooBig) fail(W, "C05", "clean_failure", sg("what", "test failure instead of NULL"), sfmt("op %zu (%s)", oi, on));
                 if (threw && (nothrowUsed || fam == 2 || route != 2)) fail(W, "C05", "clean_failure", sg("what", "bad_alloc from a non-throwing form"), sfmt("op %zu", oi));
                 bool gotNull = !p;
+                if (nodeFails && !tooBig && nodeFails->failNodeIn != 0) {       // the node allocation was asked for and failed
+                    expectNull = true;
+                    if (nodeFails->allocs - nodeFails->frees != userBalance) fail(W, "C05", "clean_failure", sg("what", "user memory kept although the request failed"), sfmt("op %zu (%s): the bookkeeping node could not be allocated; the allocator served %ld more blocks than it got back", oi, on, (nodeFails->allocs - nodeFails->frees) - userBalance));
+                }
                 if ((isOom || expectNull) && !tooBig && !lenient && !HEAP.undersized) {
                     if (gotNull != expectNull) fail(W, isOom ? "C15" : "C05", isOom ? "designated_failure" : "injected_failure", sg2("op", on, "what", gotNull ? "undesignated allocation failed" : "designated allocation succeeded"), sfmt("op %zu (%s at %s:%zu, family %s): returned %s, model says %s (global index %d)", oi, on, file, line, famAlloc[fam], gotNull ? "NULL" : "a block", expectNull ? "NULL" : "a block", W.failIndex));
                 }
@@ -632,11 +643,14 @@ struct Engine : public vf::Engine {
                 bool expectNull = HEAP.failReallocIn == 0 || tooBig;
                 TestMemoryAllocator* fa = S.route == 2 ? modelFor(W, 2) : W.famAllocator[2];
                 int cat = S.tracked ? expectedCategory(W, S, fa) : 0;
-                HEAP.userRequest = size; HEAP.armed = true; HEAP.limitHit = false;
+                SimAllocator* nodeFails = 0;
+                for (size_t k = 0; k < W.wrappers.size(); k++) if (W.wrappers[k] == fa && W.wrappers[k]->failNodeIn == 0 && (GUARD == 0 || S.route != 0) && !tooBig && cat == -1) nodeFails = W.wrappers[k];
+                HEAP.userRequest = size; HEAP.armed = true; HEAP.armedReallocOnly = true; HEAP.limitHit = false;
                 char* np = 0; size_t keep = S.size < size ? S.size : size;
                 if (S.route == 2) np = (char*)cpputest_realloc_location(S.p, size, file, line);
                 else np = det.reallocMemory(fa, S.p, size, file, line, S.route == 1);
-                HEAP.armed = false; if (HEAP.limitHit) expectNull = true;
+                HEAP.armed = false; HEAP.armedReallocOnly = false; if (HEAP.limitHit) expectNull = true;
+                if (nodeFails && nodeFails->failNodeIn != 0) expectNull = true;
                 expectReports(W, oi, on, cat);
                 if (!np) {
                     if (!expectNull && !HEAP.undersized) fail(W, "C05", "spurious_null", sg("op", on), sfmt("op %zu: realloc to %zu returned NULL although nothing failed", oi, size));
@@ -745,9 +759,10 @@ struct Engine : public vf::Engine {
             }
             case H_FAULT:
                 if (d.pi("fault_free")) break;
-                if (o.a == 0) { // next allocator-level allocation of a random family returns NULL: needs a SimAllocator in place
+                if (o.a == 0 || o.a == 3) { // next allocator-level allocation (0) or bookkeeping-node allocation (3) of a family returns NULL: needs a SimAllocator in place
                     SimAllocator* sa = new (::malloc(sizeof(SimAllocator))) SimAllocator(W.famAllocator[o.b % 3]->name(), W.famAllocator[o.b % 3]->alloc_name(), W.famAllocator[o.b % 3]->free_name());
-                    sa->failIn = 0; W.wrappers.push_back(sa); W.famAllocator[o.b % 3] = sa;
+                    if (o.a == 3) sa->failNodeIn = 0; else sa->failIn = 0;
+                    W.wrappers.push_back(sa); W.famAllocator[o.b % 3] = sa;
                     if (o.b % 3 == 0) setCurrentNewAllocator(sa); else if (o.b % 3 == 1) setCurrentNewArrayAllocator(sa); else setCurrentMallocAllocator(sa);
                 }
                 else if (o.a == 1) HEAP.failMallocIn = o.b;
